@@ -200,6 +200,35 @@ def python_image(ctx, sut, fpm, child, ancestors, values, case):
                     f"JSON of the rebuilt class differs: {str(json_r)[:250]} vs {str(json_c)[:250]}")
 
 
+def reused_property_object(ctx, sut, fpm, idx):
+    """A subclass may declare the parent's own `Property` OBJECT again under a new name
+    (`label = Parent.properties["name"]`): the parent keeps reading and exposing it under its own name."""
+    parent = sut.Object.inline(f"ReuseParent{idx}", properties={
+        "lead": sut.Property(sut.String()), "name": sut.Property(sut.String(), required=idx % 2 == 0,
+                                                                  source=["name", "display-name"][idx % 2])})
+    value = {"lead": "l", ["name", "display-name"][idx % 2]: "x"}
+    before = sut.call(parent, copy.deepcopy(value))
+    held = fpm.fp_result(before[1]) if before[0] == "ok" else None
+    try:
+        from statham.schema.elements.meta import ObjectClassDict  # pylint: disable=import-outside-toplevel
+
+        body = ObjectClassDict()
+        body["label"] = parent.properties["name"]
+        child = sut.ObjectMeta(f"ReuseChild{idx}", (parent,), body)
+        sut.call(child, {**value, "extra": 1})
+    except Exception as exc:  # pylint: disable=broad-except
+        ctx.count("reused_property.child_refused." + type(exc).__name__)
+        return
+    ctx.evaluation()
+    ctx.count("reused_property.families")
+    after = sut.call(parent, copy.deepcopy(value))
+    if after[0] != before[0] or (after[0] == "ok" and fpm.fp_result(after[1]) != held) or (
+            after[0] == "ok" and getattr(after[1], "name", None) != "x"):
+        ctx.witness("parent_changed", {"reused_property": idx},
+                    f"after a subclass re-declared the parent's Property object as `label`, the parent gives "
+                    f"{after[0]} {fpm.fp_result(after[1]) if after[0] == 'ok' else after[2]!r}; before: {held}"[:500])
+
+
 def run_family(ctx, sut, monitors, fpm, rng, chain):
     case = {"chain": chain}
     index = {c["id"]: c for c in chain}
@@ -433,6 +462,8 @@ def run_shard(ctx):
     from vlib import monitors, sut  # pylint: disable=import-outside-toplevel
 
     rng = ctx.rng
+    for idx in range(8):
+        reused_property_object(ctx, sut, fpm, idx + 8 * ctx.shard)
     for _ in range(ctx.params["families"]):
         chain = make_family(ctx, rng)
         run_family(ctx, sut, monitors, fpm, rng, chain)
@@ -441,5 +472,9 @@ def run_shard(ctx):
 def replay(case, ctx):
     from vlib import fingerprint as fpm  # pylint: disable=import-outside-toplevel
     from vlib import monitors, sut  # pylint: disable=import-outside-toplevel
+
+    if "reused_property" in case:
+        reused_property_object(ctx, sut, fpm, case["reused_property"])
+        return
 
     run_family(ctx, sut, monitors, fpm, ctx.rng, case["chain"])
